@@ -7,6 +7,7 @@ import (
 	"fmt"
 	"io"
 	"net"
+	"os"
 	"sync"
 	"testing"
 	"time"
@@ -18,6 +19,8 @@ import (
 	"verif/internal/device"
 	"verif/internal/harness"
 	"verif/internal/spec"
+	"verif/internal/srv"
+	"verif/internal/xport"
 )
 
 func TestMain(m *testing.M) {
@@ -1035,4 +1038,159 @@ var chkTwice = harness.Define("serve-twice",
 
 func TestServeTwice(t *testing.T) {
 	chkTwice.Rapid(t, harness.Pick(4, 150))
+}
+
+// ---------------------------------------------------------------------------
+// a server that lives long: one Server value accepts tens of thousands of short connections while a first client stays connected
+// (in-memory listener). Accounting must be as exact for the 65537th connection as for the first one, and a graceful shutdown must
+// still find and close the old idle connection.
+
+type manyCase struct {
+	Cycles int `json:"cycles"`
+	// Callbacks bit mask (cbAccept / cbClose are always set: the accounting is observed through them)
+	Reenter bool   `json:"reenter,omitempty"`
+	Seed    uint64 `json:"seed"`
+}
+
+func runMany(c manyCase) harness.Result {
+	l := xport.NewPipeListener()
+	s := &server.Server{ReadTimeout: 20 * time.Millisecond, WriteTimeout: 2 * time.Second, OnErrorFunc: func(error) {}}
+	acceptCh := make(chan uint64, 16)
+	closeCh := make(chan struct{}, 16)
+	s.OnAcceptConnFunc = func(ctx context.Context, ra net.Addr, n uint64) error {
+		if c.Reenter {
+			_ = s.Addr()
+		}
+		acceptCh <- n
+		return nil
+	}
+	s.OnCloseConnFunc = func(ctx context.Context, ra net.Addr, isShutdown bool) { closeCh <- struct{}{} }
+	nextAccept := func() (uint64, bool) {
+		select {
+		case n := <-acceptCh:
+			return n, true
+		case <-time.After(10 * time.Second):
+			return 0, false
+		}
+	}
+	nextClose := func() bool {
+		select {
+		case <-closeCh:
+			return true
+		case <-time.After(10 * time.Second):
+			return false
+		}
+	}
+	ctx, cancel := context.WithCancel(context.Background())
+	defer cancel()
+	serveErr := make(chan error, 1)
+	h := &srv.Handler{Dev: device.New(c.Seed)}
+	go func() { serveErr <- s.Serve(ctx, l, h) }()
+	defer l.Close()
+	exchange := func(conn net.Conn, tx uint16) error {
+		req := spec.EncodeRequest(spec.TCP, spec.Req{FC: 3, Unit: 1, Tx: tx, Addr: 5, Qty: 2})
+		want := device.New(c.Seed).Answer(spec.TCP, req)
+		_ = conn.SetDeadline(time.Now().Add(10 * time.Second))
+		if _, err := conn.Write(req); err != nil {
+			return fmt.Errorf("write: %v", err)
+		}
+		got, err := readFull(conn, len(want), 10*time.Second)
+		if err != nil || !bytes.Equal(got, want) {
+			return fmt.Errorf("received %x (%v), want %x", got, err, want)
+		}
+		return nil
+	}
+	old, err := l.Dial()
+	if err != nil {
+		return harness.Fail("harness: %v", err)
+	}
+	defer old.Close()
+	if n, ok := nextAccept(); !ok || n != 1 {
+		return harness.Fail("first connection: accept callback called=%v connectionCount=%d", ok, n)
+	}
+	if err := exchange(old, 1); err != nil {
+		return harness.Fail("first connection: %v", err)
+	}
+	for i := 0; i < c.Cycles; i++ {
+		conn, err := l.Dial()
+		if err != nil {
+			return harness.Fail("harness: %v", err)
+		}
+		n, ok := nextAccept()
+		if !ok {
+			_ = conn.Close()
+			return harness.Fail("connection %d: accept callback not called within 10 s", i+2)
+		}
+		if n != 2 {
+			_ = conn.Close()
+			return harness.Fail("connection %d of one Server value (the first one is still open and in use, all others have been closed and their close callbacks seen): accept callback reported connectionCount=%d, 2 connections are live", i+2, n)
+		}
+		if i%997 == 0 {
+			if err := exchange(conn, uint16(i)); err != nil {
+				_ = conn.Close()
+				return harness.Fail("connection %d: %v", i+2, err)
+			}
+			// (the first connection stays in use: the server closes connections that have been silent for 25 s)
+			if err := exchange(old, uint16(i)); err != nil {
+				_ = conn.Close()
+				return harness.Fail("the first connection, while connection %d is open: %v", i+2, err)
+			}
+		}
+		_ = conn.Close()
+		if !nextClose() {
+			return harness.Fail("connection %d: close callback not called within 10 s after the client disconnected", i+2)
+		}
+	}
+	if err := exchange(old, 2); err != nil {
+		return harness.Fail("the first connection, open while %d others came and went: %v", c.Cycles, err)
+	}
+	last, err := l.Dial()
+	if err != nil {
+		return harness.Fail("harness: %v", err)
+	}
+	defer last.Close()
+	if n, ok := nextAccept(); !ok || n != 2 {
+		return harness.Fail("last connection (number %d): accept callback called=%v connectionCount=%d, 2 connections are live", c.Cycles+2, ok, n)
+	}
+	serr, returned := shutdownWithin(s, 10*time.Second)
+	if !returned || serr != nil {
+		return harness.Fail("Shutdown after %d connections: returned=%v err=%v", c.Cycles+2, returned, serr)
+	}
+	if e, ok := waitErr(serveErr, 3*time.Second, 12*time.Second); !ok || !errors.Is(e, server.ErrServerClosed) {
+		return harness.Fail("after Shutdown the serve call returned %v (returned=%v), want ErrServerClosed", e, ok)
+	}
+	// idle connections are closed: both remaining clients see the end of their streams
+	for name, conn := range map[string]net.Conn{fmt.Sprintf("the first connection (open since before the other %d)", c.Cycles): old, "the last connection": last} {
+		_ = conn.SetReadDeadline(time.Now().Add(5 * time.Second))
+		if n, err := conn.Read(make([]byte, 1)); err == nil || n != 0 || errors.Is(err, os.ErrDeadlineExceeded) {
+			return harness.Fail("after a successful Shutdown %s is still open (read returned n=%d err=%v)", name, n, err)
+		}
+	}
+	if !nextClose() || !nextClose() {
+		return harness.Fail("%d connections were accepted; after Shutdown the close callbacks of the two that were still open did not both run", c.Cycles+2)
+	}
+	select {
+	case <-closeCh:
+		return harness.Fail("the close callback ran more often than connections were accepted (%d)", c.Cycles+2)
+	case <-time.After(2 * time.Millisecond):
+	}
+	return harness.Result{NonTrivial: c.Cycles >= 100, Labels: []string{fmt.Sprintf("connections-on-one-server:%d", c.Cycles+2)}, Weight: int64(c.Cycles)}
+}
+
+var chkMany = harness.Define("long-lived-server",
+	func(t *rapid.T) manyCase {
+		return manyCase{Cycles: rapid.SampledFrom([]int{100, 300, 1000}).Draw(t, "cycles"), Reenter: rapid.Bool().Draw(t, "reenter"), Seed: rapid.Uint64().Draw(t, "seed")}
+	}, runMany)
+
+func TestLongLivedServer(t *testing.T) {
+	chkMany.Rapid(t, harness.Pick(3, 30))
+	sizes := []int{65540}
+	if harness.Thorough() {
+		sizes = []int{65540, 131080}
+	}
+	for i, n := range sizes {
+		if harness.Mine(i + 1) {
+			chkMany.Eval(t, manyCase{Cycles: n, Seed: harness.Seed()})
+		}
+	}
 }
